@@ -11,6 +11,8 @@ CRLF_TEXTS = [t for t in V.TEXTS if "\r" in t]
 EXTRA = ["/o<CR>", "?a<CR>", "n", "N", ":s/o/0/<CR>", ":%s/a/bb/g<CR>", ":d<CR>", ":2<CR>", ":1,2d<CR>", "u", "<c-r>", ".", "gv", "o<esc>",
          "<c-v>jld", "Vjd", "vly", "R12<esc>", "A<BS><BS><esc>", "ia<left><left>b<esc>", "i<del><esc>", ":s/é/ab/<CR>", ":s/ab/é/<CR>", "jA foo<esc>u", "jofoo<esc>u", "ddu", "Gdd", "ggdG",
          # block selections with a corner on the last character of the text, and visual selections that end on a line break
+         # a prompt opened from a selection whose cursor is on a line break, then given up, or a :normal! whose address is no line
+         "v3l:<esc>", "v3l/de<esc>", "$vj:<esc>", "v$:<esc>", "Vj:<esc>", "v$?x<esc>", "v$:-9normal! x<CR>", "v$:/nosuchtext/normal! x<CR>", "v$:-9normal! x<CR>.", "$vj:99normal! dd<CR>",
          "G$<c-v>", "G$<c-v>k", "G0<c-v>$", "G<c-v>$h", "G$<c-v>kh", "j<c-v>ll", "$vj", "$vl", "$vjk", "G$v", "$<c-v>j"]
 OPENERS = ["i", "a", "A", "o", "R", "v", "V", "<c-v>"]
 
